@@ -21,7 +21,7 @@ for p in props:
         "replay_cmd_template": "./check replay {path}",
         "engine": "rocq-model+correspondence",
         "level_claimed": {"category": "proof", "text": n.get("text", "Theorems about an executable Gallina model (coq/props/%s.v), tied to the code by step-wise correspondence." % pid),
-                          "design_ref": "DESIGN.md §6 %s (plan), §11.3 (as built)" % pid},
+                          "design_ref": "DESIGN.md §6 %s (plan), §11.3, §11.6, §11.7 (as built)" % pid},
         "level_note": n.get("note", "Trusted: Coq 8.16.1 kernel + VM; the hand-written model (checked by correspondence on every run, not proved faithful); the Rust harness / cw-multi-test 0.16.5 / cw20-base / cw721-base as stand-ins for the chain; chain assumptions of DESIGN.md §8."),
         "technique": "machine-checked proof in Rocq (Coq 8.16) over a hand-written executable model + step-wise differential correspondence (vm_compute) with the real contracts"})
 m = {"version": 1, "setup_cmd": "./check setup",
